@@ -239,8 +239,18 @@ def zlist(bs):
 
 # ------------------------------------------------------------------ harness
 
+_HARNESS = {}
+
+
 def build_harness():
-    """Rebuild the Go harness against the current /repo with hooks enabled."""
+    """Rebuild the Go harness against the current /repo with hooks enabled (once per check process; run_harness
+    calls it too, so that no family can run a binary built from an earlier tree)."""
+    if "r" not in _HARNESS:
+        _HARNESS["r"] = _build_harness()
+    return _HARNESS["r"]
+
+
+def _build_harness():
     os.makedirs(BIN, exist_ok=True)
     h = os.path.join(VERIF, "harness")
     # go.sum of the harness module must contain /repo's sums (offline)
@@ -263,6 +273,9 @@ def build_harness():
 
 
 def run_harness(args, timeout=900, env=None):
+    okb, out = build_harness()
+    if not okb:
+        raise Fail("harness build failed (does the repository still compile with -tags verif?):\n" + out[-3000:])
     e = dict(ENV)
     if env:
         e.update(env)
